@@ -10,7 +10,7 @@
    (non-vacuity). *)
 From Coq Require Import ZArith List Bool Reals Lra.
 From Coquelicot Require Import Coquelicot.
-From GTCV Require Import Num RNum KFactor KFactorFacts.
+From GTCV Require Import Num FNum RNum KFactor KFactorFacts.
 From GTCV.gen Require Import Gen_reporting.
 Local Open Scope R_scope.
 
@@ -35,20 +35,13 @@ Section C19.
     k2 <= 0 \/ p <= 0 \/ 100 <= p -> g_k2_to_dof RNum O k2 p = Err RuntimeError.
   Proof. exact (k2_to_dof_bad stdtrit ndtri stdtridf fdtr fdtri ridder). Qed.
 
-  (* k2_factor_sq: RuntimeError exactly for df <= 1 -- for EVERY p, so ... *)
-  Theorem C19_k2_factor_sq_range_on_df : forall (df : ext R) (p : R),
-    g_k2_factor_sq RNum O df p = Err RuntimeError <-> exists d, df = Fin d /\ d <= 1.
+  (* k2_factor_sq: RuntimeError exactly when p is outside (0,100) or df <= 1.
+     (Fixed defect C19-1 / DESIGN 7 #27: the source had no check on p and this statement was
+     refuted by (df,p) = (3,100) and (inf,150); the finding is replayed as a regression test.) *)
+  Theorem C19_k2_factor_sq_range : forall (df : ext R) (p : R),
+    g_k2_factor_sq RNum O df p = Err RuntimeError <->
+    (p <= 0 \/ 100 <= p \/ exists d, df = Fin d /\ d <= 1).
   Proof. exact (k2_factor_sq_raises_iff stdtrit ndtri stdtridf fdtr fdtri ridder). Qed.
-
-  (* ... the full-strength statement is false of the code: p outside (0,100) is not
-     rejected (defect #27; replayed on the implementation as known finding C19-1) *)
-  Theorem C19_k2_factor_sq_p_range_refuted :
-    exists (df : ext R) (p : R), ~ (0 < p < 100) /\ g_k2_factor_sq RNum O df p <> Err RuntimeError.
-  Proof. exact (k2_factor_sq_p_range_refuted stdtrit ndtri stdtridf fdtr fdtri ridder). Qed.
-
-  Theorem C19_k2_factor_sq_p_range_refuted_inf :
-    exists p : R, ~ (0 < p < 100) /\ g_k2_factor_sq RNum O PInf p = Err ValueError.
-  Proof. exact (k2_factor_sq_p_range_refuted_inf stdtrit ndtri stdtridf fdtr fdtri ridder). Qed.
 
   (* ---------------------------------------------------------------- k_factor *)
   (* For symmetric distributions Tcdf d (Student-t, d dof) and Ncdf (normal) whose
@@ -186,9 +179,7 @@ End C19.
 Definition C19_axioms_of_model_theorems := (C19_k_factor_range,
   C19_k_to_dof_range,
   C19_k2_to_dof_range,
-  C19_k2_factor_sq_range_on_df,
-  C19_k2_factor_sq_p_range_refuted,
-  C19_k2_factor_sq_p_range_refuted_inf,
+  C19_k2_factor_sq_range,
   C19_k_factor_two_sided,
   C19_two_sided,
   C19_k_to_dof_inverse_partial,
@@ -322,7 +313,7 @@ Proof.
     exact k2sq_inf_95_bound.
   - apply C19_k2_to_dof_range. left. lra.
   - apply C19_k_factor_range. right. right. exists (1 / 2). split; [reflexivity | lra].
-  - apply C19_k2_factor_sq_range_on_df. exists 1. split; [reflexivity | lra].
+  - apply C19_k2_factor_sq_range. right. right. exists 1. split; [reflexivity | lra].
 Qed.
 
 (* axioms under the examples (the ideal root finder is built with classical epsilon)
@@ -332,3 +323,35 @@ Definition C19_axioms_of_examples := (C19_hypotheses_satisfiable,
   C19_example_k,
   C19_example_k2_to_dof_cases).
 Print Assumptions C19_axioms_of_examples.
+
+(* ---------------------------------------------------------------- binary64: NaN and huge arguments *)
+From Coq Require Import PrimFloat.
+(* (Fixed defect C19-3.)  Over binary64, for every oracle table: a NaN p, k, k2 or df is
+   rejected with RuntimeError by every function.  With the old guards (`p <= 0 or p >= 100`,
+   `k <= 0`) NaN passed and nan / inf came back. *)
+Theorem C19_nan_rejected : forall (lt : list oracle_entry) (st : list sentry),
+  let N := FNum lt in let O := FScipy lt st in
+  (forall df, g_k_factor N O df PrimFloat.nan = Err RuntimeError) /\
+  (forall df, g_k2_factor_sq N O df PrimFloat.nan = Err RuntimeError) /\
+  (forall k, g_k_to_dof N O k PrimFloat.nan = Err RuntimeError) /\
+  (forall k2, g_k2_to_dof N O k2 PrimFloat.nan = Err RuntimeError) /\
+  (forall p, g_k_to_dof N O PrimFloat.nan p = Err RuntimeError /\
+             g_k2_to_dof N O PrimFloat.nan p = Err RuntimeError) /\
+  (forall p, g_k_factor N O (Fin PrimFloat.nan) p = Err RuntimeError /\
+             g_k2_factor_sq N O (Fin PrimFloat.nan) p = Err RuntimeError).
+Proof.
+  intros lt st N O.
+  destruct (nan_p_rejected lt st) as [A [B [C D]]].
+  exact (conj A (conj B (conj C (conj D (conj (nan_k_rejected lt st) (nan_df_rejected lt st)))))).
+Qed.
+
+(* (Fixed defect C19-2.)  k2_to_dof(1e200, 95) is RuntimeError("dof < 2"), not OverflowError:
+   evaluated with an EMPTY libm table (so `**` is not used) and fdtr(2, lo, +inf) = 1 *)
+Example C19_k2_to_dof_huge_k2 :
+  g_k2_to_dof (FNum nil)
+    (FScipy nil (cons (S_fdtr, cons 2%float (cons 0x1.ff7ced916872bp-1%float (cons PrimFloat.infinity nil)), Ok 1%float) nil))
+    0x1.4e718d7d7625ap+664%float 95%float = Err RuntimeError.
+Proof. exact k2_to_dof_huge_k2. Qed.
+
+Definition C19_axioms_of_binary64_theorems := (C19_nan_rejected, C19_k2_to_dof_huge_k2).
+Print Assumptions C19_axioms_of_binary64_theorems.
